@@ -142,6 +142,8 @@ inside_handler_context: ContextVar[bool] = ContextVar('inside_handler', default=
 holds_global_lock: ContextVar[bool] = ContextVar('holds_global_lock', default=False)
 # Context variable to track the current handler ID (for tracking child events)
 _current_handler_id_context: ContextVar[str | None] = ContextVar('current_handler_id', default=None)
+# Context variable to track the bus whose handler is currently running (for BaseEvent.event_bus)
+_current_eventbus_context: ContextVar['EventBus | None'] = ContextVar('current_eventbus', default=None)
 
 
 class ReentrantLock:
@@ -753,6 +755,7 @@ class EventBus:
                 runloop_context.run(inside_handler_context.set, False)
                 runloop_context.run(holds_global_lock.set, False)
                 runloop_context.run(_current_handler_id_context.set, None)
+                runloop_context.run(_current_eventbus_context.set, None)
                 self._runloop_task = loop.create_task(self._run_loop(), name=f'{self}._run_loop', context=runloop_context)
                 self._is_running = True
             except RuntimeError:
@@ -1134,6 +1137,8 @@ class EventBus:
         handler_token = inside_handler_context.set(True)
         # Set the current handler ID so child events can be tracked
         handler_id_token = _current_handler_id_context.set(handler_id)
+        # Remember which bus is running the handler (event.event_bus must not guess it from event_path)
+        eventbus_token = _current_eventbus_context.set(self)
 
         # Create a task to monitor for potential deadlock / slow handlers
         async def deadlock_monitor():
@@ -1239,6 +1244,7 @@ class EventBus:
             _current_event_context.reset(token)
             inside_handler_context.reset(handler_token)
             _current_handler_id_context.reset(handler_id_token)
+            _current_eventbus_context.reset(eventbus_token)
 
             # Ensure handler task is cancelled if it's still running
             if handler_task and not handler_task.done():
